@@ -156,13 +156,19 @@ pub fn histories(sink: &mut Sink, rng: &mut Rng, thorough: bool, work: &Path) {
     // a FOCUS identifier per history: most commands hit it, so that sequences such as
     // add / remove / re-add / change status (without a purge in between) are frequent
     let focus = 1 + rng.below(8);
+    // 1 history out of 7 starts with a SCRIPTED prefix on the focus identifier: add, remove, re-add (no purge in
+    // between: the removed entry is still in the file), deprecate, remove
+    let scripted = !fill && h % 7 == 2;
+    let n_cmd = if scripted { n_cmd.max(6) } else { n_cmd };
+    if scripted { sink.count("history:scripted-readd-prefix"); }
     for c in 0..n_cmd {
       let before = fs::read(&file).unwrap_or_default();
-      let kind = rng.below(10);
+      let in_script = scripted && c < 5;
+      let kind = if in_script { [0u64, 4, 0, 4, 4][c] } else { rng.below(10) };
       let ok;
       if kind < 4 {
         // append (valid or deprecated; ids already present / removed / new)
-        let id = if fill && rng.chance(1, 2) { 100 + rng.below(127) } else if rng.chance(3, 5) { focus } else { 1 + rng.below(8) };
+        let id = if in_script { focus } else if fill && rng.chance(1, 2) { 100 + rng.below(127) } else if rng.chance(3, 5) { focus } else { 1 + rng.below(8) };
         let e = random_entry(rng, id);
         let p = dir.join(format!("a{}_{}.fits", c, id));
         e.write_fits(&p, rng.chance(1, 4));
@@ -180,9 +186,9 @@ pub fn histories(sink: &mut Sink, rng: &mut Rng, thorough: bool, work: &Path) {
           }
         }
       } else if kind < 8 {
-        let st = 1 + rng.below(3) as u8;
+        let st = if in_script { [0u8, 1, 0, 2, 1][c] } else { 1 + rng.below(3) as u8 };
         let n_ids = 1 + rng.below(2);
-        let ids: Vec<u64> = (0..n_ids).map(|_| if fill { 100 + rng.below(127) } else if rng.chance(3, 5) { focus } else { 1 + rng.below(9) }).collect();
+        let ids: Vec<u64> = if in_script { vec![focus] } else { (0..n_ids).map(|_| if fill { 100 + rng.below(127) } else if rng.chance(3, 5) { focus } else { 1 + rng.below(9) }).collect() };
         let idtxt = ids.iter().map(|x| x.to_string()).collect::<Vec<_>>().join(",");
         let r = run("mocset", &["chgstatus", file.to_str().unwrap(), status_name(st), &idtxt], None, &[]);
         ok = r.ok;
